@@ -169,7 +169,7 @@ def make_cons_alias(ctx, spin):
     import qubovert as qv
     T = qv.PCSO if spin else qv.PCBO
     PT = [qv.PUSO, qv.PCSO, qv.QUSO] if spin else [qv.PUBO, qv.PCBO, qv.QUBO]
-    cs = {k: ctx.int_var('c%d' % i, -2, 2) for i, k in enumerate([('a',), ('b',), ()])}
+    cs = {k: ctx.int_var('c%d' % i, -1, 1) for i, k in enumerate([('a',), ('b',), ()])}
     v = ctx.real_var('v')
     sel = ctx.int_var('rel', 0, 5)
     psel = ctx.int_var('ptype', 0, 2)
@@ -180,7 +180,7 @@ def make_cons_alias(ctx, spin):
         H = T({('q',): 1})
         with warnings.catch_warnings():
             warnings.simplefilter('ignore')
-            getattr(H, 'add_constraint_%s_zero' % rel)(P, lam=1, **({} if rel == 'eq' else {'bounds': (-9, 9)}))
+            getattr(H, 'add_constraint_%s_zero' % rel)(P, lam=1, **({} if rel == 'eq' else {'bounds': (-3, 3)}))
         snap = lambda: {k: [O.snapshot(x) for x in vv] for k, vv in H.constraints.items()}
         s0 = snap(); t0 = O.snapshot(H)
         P[('a',)] += v; P[('zz',)] = 5; P *= 2
